@@ -215,6 +215,11 @@ Op mk_create(Gen &g, int slot, long n) {
   o.n = n;
   o.fill = rand_fill(g.r);
   o.guard = (int)g.r.below(2);
+  if (n < 0 && g.r.chance(1, 4)) {
+    // "buffer_len: irrelevant if buffer is NULL": any value may accompany a NULL buffer
+    static const long lens[] = {1, 19, 4096, 6021, 70000, 1 << 20, -5};
+    o.c = lens[g.r.below(7)];
+  }
   return o;
 }
 
@@ -359,6 +364,11 @@ struct HistCfg {
 
 long pick_chunk(Rng &r, const HistCfg &c, long last = 0) {
   if (last >= 2 && r.chance(1, 4)) return last;  // the same size again, e.g. after fitting was switched off
+  if (r.chance(1, 40)) {
+    // the parameter is a size_t: sizes beyond 32 bits are sizes like any other (no boundary is ever reached)
+    static const long big[] = {1L << 31, (1L << 31) + 8, 1L << 32, (1L << 32) + 1, 1L << 40};
+    return r.coin() ? (1L << 32) + r.range(2, 64) : big[r.below(5)];
+  }
   unsigned w = (unsigned)r.below(100);
   if (w < 8) return (long)r.range(-1, 1);  // switches fitting off
   if (w < 75 || c.c_sparse_hi <= c.c_dense_hi) return r.range(2, c.c_dense_hi);
@@ -980,7 +990,11 @@ void gen_c12(Gen &g) {
     int nops = (int)r.geom(2, 24, 8);
     // caller buffers and library-managed buffers alike; instances come and go, so a new instance may
     // well be built from whatever an earlier one left behind
-    auto new_inst = [&](int slot) { t.ops.push_back(mk_create(g, slot, r.chance(1, 3) ? -1 : 128)); };
+    bool internal[2] = {false, false};
+    auto new_inst = [&](int slot) {
+      internal[slot] = r.chance(1, 3);
+      t.ops.push_back(mk_create(g, slot, internal[slot] ? -1 : 128));
+    };
     new_inst(0);
     live[0] = true;
     for (int i = 0; i < nops; i++) {
@@ -996,9 +1010,29 @@ void gen_c12(Gen &g) {
         live[slot] = false;
         continue;
       }
+      if (w == 2) {
+        // a call that fails: the setters that follow act on an instance in its error state (the probe after each
+        // setter restarts it with asm_set_offset(0))
+        Op a = g.mk(OP_ASM, slot);
+        a.lines = gen_program(r, (int)r.range(0, 3), 0, (int)r.below(3));
+        t.ops.push_back(a);
+        continue;
+      }
+      if (w == 3 && internal[slot] && r.chance(1, 3)) {
+        // a program beyond the initial capacity: the settings must survive growth, failure and restart
+        Op a = g.mk(OP_ASM, slot);
+        a.lines = gen_program(r, (int)r.range(1300, 1700), 0, r.coin() ? 2 : -1);
+        t.ops.push_back(a);
+        continue;
+      }
       Op o = g.mk(OP_SETTER, slot);
       o.which = (int)r.below(5);
       o.value = vals[r.below(nvals)];
+      if (r.chance(1, 25)) {
+        // the same call many times in a row (idempotent by documentation), nothing else in between
+        static const long bursts[] = {2, 3, 85, 86, 128, 255, 256, 257, 512, 768, 65536};
+        o.k = bursts[r.below(11)];
+      }
       t.ops.push_back(o);
     }
     p.tasks.push_back(t);
@@ -1069,6 +1103,30 @@ void gen_c08(Gen &g) {
     if (mode >= 6 && mode <= 7 && r.coin())
       for (Op &op : t.ops)
         if (op.kind == OP_CHUNK) op.c = r.range(13, 40);
+  }
+  if (!huge && r.chance(1, g.thorough ? 400 : 500)) {
+    // page coincidences of the mapping sizes: capacities (observed initial + q * observed step) that end less than an
+    // instruction's length before a page boundary - only there does the kernel's rounding to pages stop hiding a byte
+    // written past the capacity.  A long instruction is placed to start within the last bytes of such a capacity.
+    std::vector<long> qs;
+    for (long q = 0; q <= 420; q++) {
+      long cap = lib_geometry().initial + lib_geometry().step * q;
+      if (4096 - cap % 4096 < 15 || cap % 4096 == 0) qs.push_back(q);
+    }
+    std::vector<std::string> longs;
+    for (int len = 12; len <= 15; len++)
+      for (int idx : corpus_by_len(len)) longs.push_back(line_text(idx));
+    if (!qs.empty() && !longs.empty()) {
+      long cap = lib_geometry().initial + lib_geometry().step * r.pick(qs);
+      long at = cap - (r.chance(2, 3) ? (long)r.range(0, 3) : (long)r.range(0, 22));
+      prog = gen_exec_program(r, 0, o, at);
+      prog.push_back(r.pick(longs));
+      for (int q = 0; q < 12; q++) prog.push_back(r.chance(1, 3) ? r.pick(longs) : pick_instr(r));
+      p.world.step_budget = 2000000000L;
+      t.ops[0].k = cap + 400000;
+      for (Op &op : t.ops)
+        if (op.kind == OP_CHUNK) op.c = 0;  // plain and counting only: positions are what the generator computed, and the twin's capacity suffices
+    }
   }
   unsigned split = (unsigned)r.below(10);
   int kind = mode >= 8 ? OP_COUNT : OP_ASM;
@@ -1176,10 +1234,17 @@ void gen_c19(Gen &g) {
   p.world.behind = (int)r.below(3);
   p.world.mem_policy = (int)r.below(3);
   p.world.fd0_free = r.chance(1, 6);
+  // a process that closes what it opens never holds more than one descriptor here
+  p.world.fd_limit = r.chance(1, 3) ? (int)r.range(1, 4) : 0;
   Task t;
   bool internal = r.chance(1, 3);
-  Op cr = mk_create(g, 0, internal ? -1 : 70000);
+  // mostly a buffer with room for everything; now and then a small caller buffer, where the in-memory counterpart runs
+  // on a buffer of the same length (the 20-byte rule and a full buffer are part of "behaves exactly as")
+  const bool small = !internal && r.chance(1, 5);
+  const long cap = internal ? -1 : small ? interesting(r, 1, 160) : 70000;
+  Op cr = mk_create(g, 0, cap);
   cr.twin = true;
+  if (small) cr.k = cap;
   t.ops.push_back(cr);
   if (r.chance(1, 3)) {
     int o = (int)r.below(12);
@@ -1233,6 +1298,19 @@ void gen_c19(Gen &g) {
     if (i == 0 ? ow < 3 : ow < 6) {
       Op so = g.mk(OP_OFFSET, 0);
       so.k = ow % 3 == 0 ? 0 : ow % 3 == 1 ? (long)r.range(1, 200) : (r.coin() ? 4096 * r.range(1, 3) + r.range(-20, 0) : (long)r.range(201, 9000));
+      if (small && r.coin()) so.k = std::max<long>(0, cap - (long)r.range(0, 45));
+      t.ops.push_back(so);
+    }
+    if (r.chance(1, 12)) {
+      // several calls on something that opens but cannot be read: each must give its descriptor back
+      for (int q = (int)r.range(2, 5); q > 0; q--) {
+        Op d = g.mk(r.chance(1, 3) ? OP_COUNT_FILE : OP_ASM_FILE, 0);
+        d.path = "/sim/dir";
+        d.c = r.range(2, 64);
+        t.ops.push_back(d);
+      }
+      Op so = g.mk(OP_OFFSET, 0);
+      so.k = 0;
       t.ops.push_back(so);
     }
     unsigned w = (unsigned)r.below(20);
@@ -1275,8 +1353,9 @@ void gen_c19(Gen &g) {
       so.k = -2;  // resolved by the runner: "a random offset within what has been written" is not known here
       // choose small offsets that are certainly within the written part only after a successful call;
       // the runner skips set_offset calls outside the domain.
-      static const long pagey[] = {4095, 4096, 4097, 8192, 12288, 1024, 2048};
-      so.k = r.chance(1, 3) ? pagey[r.below(7)] : (long)r.below(40);  // (skipped by the runner when nothing has been written there yet)
+      static const long pagey[] = {4095, 4096, 4097, 8192, 12288, 1024, 2048, 6000, 6001, 6010, 6019, 6020};
+      so.k = r.chance(1, 3) ? pagey[r.below(12)] : (long)r.below(40);  // (skipped by the runner when nothing has been written there yet)
+      if (small && r.coin()) so.k = std::max<long>(0, cap - (long)r.range(0, 24));  // the last bytes of the buffer are code like any other
       t.ops.push_back(so);
       Op b = g.mk(OP_BIN_FILE, 0);
       unsigned pw = (unsigned)r.below(12);
